@@ -198,6 +198,21 @@ func (v *valuesVisitor) variableValueSatisfiesDefinitionType(value ast.Value, de
 	return true
 }
 
+// variableSatisfiesDefinitionTypeWithLocationDefault checks a variable used in a Non-Null position whose location
+// (input field) has a default value: the types are compared as if the position were nullable.
+func (v *valuesVisitor) variableSatisfiesDefinitionTypeWithLocationDefault(value ast.Value, definitionTypeRef int) bool {
+	_, variableTypeRef, _, exists := v.operationVariableType(value.Ref)
+	if !exists {
+		v.handleUndefinedVarError(value)
+		return false
+	}
+	if !v.operationTypeSatisfiesDefinitionType(variableTypeRef, definitionTypeRef, true) {
+		v.handleVariableHasIncompatibleTypeError(value, definitionTypeRef)
+		return false
+	}
+	return true
+}
+
 func (v *valuesVisitor) valuesSatisfiesNonNullType(value ast.Value, definitionTypeRef int) bool {
 	switch value.Kind {
 	case ast.ValueKindNull:
@@ -609,6 +624,13 @@ func (v *valuesVisitor) objectValueSatisfiesInputValueDefinition(objectValue ast
 	for _, i := range v.operation.ObjectValues[objectValue.Ref].Refs {
 		if bytes.Equal(name, v.operation.ObjectFieldNameBytes(i)) {
 			value := v.operation.ObjectFieldValue(i)
+			if value.Kind == ast.ValueKindVariable &&
+				v.definition.Types[definitionTypeRef].TypeKind == ast.TypeKindNonNull &&
+				v.validDefaultValue(v.definition.InputValueDefinitions[inputValueDefinition].DefaultValue) {
+				// IsVariableUsageAllowed (spec 5.8.5): the input field has a default value, so a nullable variable
+				// is allowed in this Non-Null position - as it is for an argument with a default value
+				return v.variableSatisfiesDefinitionTypeWithLocationDefault(value, definitionTypeRef)
+			}
 			return v.valueSatisfiesInputValueDefinitionType(value, definitionTypeRef)
 		}
 	}
